@@ -91,7 +91,14 @@ class LockstepReader:
         self._compare(name, args, ro, mo)
         if ro[0] == "raise":
             raise {"ValueError": ValueError, "RuntimeError": RuntimeError}[ro[1]]("lock-step: both raised")
-        if self.scribble and isinstance(ro[1], bytearray):
+        held = getattr(self, "_held", None)
+        if held is not None and bytes(held[0]) != held[1]:
+            raise Divergence("the bytearray returned by an earlier %s changed from %r to %r during %s%r" % (held[2], held[1], bytes(held[0]), name, args), self.trace)
+        self._held = None
+        if self.scribble and isinstance(ro[1], bytearray) and self.counter[0] % 2:
+            # every other returned bytearray is left alone and looked at again after the next call
+            self._held = (ro[1], bytes(ro[1]), name)
+        elif self.scribble and isinstance(ro[1], bytearray):
             # the returned bytearray belongs to the caller: whatever the caller does to it (here: overwrite
             # and grow it) must not show in any later read of this or another reader
             out = bytearray(ro[1])
